@@ -78,6 +78,10 @@ func applyDiff(a map[string]intoto.HashObj, kind string) {
 		delete(a[first], "sha256")
 	case "add-alg":
 		a[first]["sha512"] = "abcdef"
+	case "digest-nonhex":
+		// a digest with a typo: not hexadecimal any more, but still what that functionary reports
+		h := a[first]["sha256"]
+		a[first]["sha256"] = "zz" + h[2:]
 	case "drop-all":
 		// one functionary reports nothing at all on this side
 		for p := range a {
@@ -110,7 +114,7 @@ func runC05(c *core.Ctx) {
 						if links < 2 {
 							continue
 						}
-						for _, dk := range []string{"add-path", "drop-path", "digest", "rename-alg", "add-alg", "respell-path", "drop-all"} {
+						for _, dk := range []string{"add-path", "drop-path", "digest", "rename-alg", "add-alg", "respell-path", "drop-all", "digest-nonhex"} {
 							for _, side := range []string{"materials", "products"} {
 								for ds := 0; ds < steps; ds++ {
 									if c.Quick() && (ds+steps+th+len(dk)+len(side))%3 != 0 {
@@ -192,6 +196,20 @@ func runC05(c *core.Ctx) {
 			inspections = []intoto.Inspection{gen.Inspection(inspLike, []string{Helper(c), "touch", filepath.Join(root, "inspection-ran")}, [][]string{{"ALLOW", "*"}}, [][]string{{"ALLOW", "*"}})}
 		}
 		layout := gen.NewLayout(steps, inspections, gen.KeyMap(fn...))
+		// in a quarter of the differing cases (legacy wrapper) the differing link comes from a functionary
+		// who is authorized through a certificate constraint, not through the key list
+		var certFn *gen.Functionary
+		if k.DiffStep >= 0 && !k.DSSE && ci%4 == 3 {
+			if ca, cerr := gen.NewCA(gen.CertSpec{CN: "c05-root"}, nil); cerr == nil {
+				if pemS, _, ierr := ca.Issue(gen.CertSpec{CN: "cert-functionary"}, fast[6].Public); ierr == nil {
+					certFn = &gen.Functionary{KeyPair: fast[6], CertPEM: pemS}
+					cc := gen.WildcardConstraint()
+					cc.CommonName = "cert-functionary"
+					layout.Steps[k.DiffStep].CertificateConstraints = []intoto.CertificateConstraint{cc}
+					layout.RootCas = map[string]intoto.Key{ca.Key.KeyID: ca.Key}
+				}
+			}
+		}
 		md, err := gen.SignedMeta(layout, k.DSSE, owner.Priv)
 		if err != nil {
 			c.Inconclusive("harness: sign layout")
@@ -212,7 +230,11 @@ func runC05(c *core.Ctx) {
 						applyDiff(prods, k.DiffKind)
 					}
 				}
-				gen.WriteLink(linkDir, gen.NewLink(fmt.Sprintf("step%d", s), mats, prods), fn[li].Priv, k.DSSE)
+				signKey := fn[li].Priv
+				if certFn != nil && s == k.DiffStep && li == k.Links-1 {
+					signKey = certFn.SigningKey()
+				}
+				gen.WriteLink(linkDir, gen.NewLink(fmt.Sprintf("step%d", s), mats, prods), signKey, k.DSSE)
 			}
 			if s == 0 {
 				wantMats = gen.Artifacts(m)
@@ -240,6 +262,9 @@ func runC05(c *core.Ctx) {
 		detail := map[string]any{"case": k.String()}
 		if inspLike != "" {
 			detail["inspection_named_like"] = inspLike
+		}
+		if certFn != nil {
+			detail["differing_link_signed_by"] = "functionary authorized through a certificate constraint"
 		}
 		c.Begin(id)
 		var first VerifyObs
@@ -361,7 +386,7 @@ func c05Reduce(c *core.Ctx, fn []gen.KeyPair) {
 	}
 	ok := int64(0)
 	layout := gen.NewLayout([]intoto.Step{gen.Step("s", 1, nil, nil, nil)}, nil, nil)
-	for _, dk := range []string{"", "add-path", "drop-path", "digest", "rename-alg", "add-alg", "respell-path", "drop-all"} {
+	for _, dk := range []string{"", "add-path", "drop-path", "digest", "rename-alg", "add-alg", "respell-path", "drop-all", "digest-nonhex"} {
 		for _, side := range []string{"materials", "products"} {
 			for pos := 0; pos < 3; pos++ {
 				for rep := 0; rep < 6; rep++ {
@@ -403,7 +428,7 @@ func init() {
 	core.Register(&core.Property{
 		ID:    "C05",
 		Level: "exploration",
-		Rule: "chains of 1-4 steps (step i consumes the product of step i-1), thresholds 1-3, threshold..3 validly signed authorized links per step; a single difference {added path, dropped path, one digest nibble, renamed algorithm, added algorithm, the same path spelled ./path, nothing reported at all} in the materials or products of one counted link at every step position; all counted links of one step (every position) agreeing on a product that step's rules forbid, with and without a rule-less step in front of it (rejected unless the agreeing step itself has no rules); uncounted links (unsigned / unauthorized / tampered) with arbitrary other artifacts added to otherwise identical directories (metamorphic pairs; the product rules REQUIRE f_i / DISALLOW evil would flip the verdict if they were evaluated on the uncounted link); 2 wrappers x 2 entry points; a third of the chains carry MATCH ... IN vendor rules on the first and last step that consume nothing (the agreed sets and the summary must not change); a fifth of the agreeing chains carry an inspection named like the first or the last step; every case verified 4 times (the reference link is picked from a map); the summary link is compared with (requested name, agreed materials of the first step, agreed products of the last step); ReduceStepsMetadata called directly with the difference at each of 3 positions x 6 repetitions. " +
+		Rule: "chains of 1-4 steps (step i consumes the product of step i-1), thresholds 1-3, threshold..3 validly signed authorized links per step; a single difference {added path, dropped path, one digest nibble, renamed algorithm, added algorithm, the same path spelled ./path, nothing reported at all, a digest that is not hexadecimal} in the materials or products of one counted link at every step position, in a quarter of the legacy cases reported by a functionary who is authorized through a certificate constraint while the others are listed by key; all counted links of one step (every position) agreeing on a product that step's rules forbid, with and without a rule-less step in front of it (rejected unless the agreeing step itself has no rules); uncounted links (unsigned / unauthorized / tampered) with arbitrary other artifacts added to otherwise identical directories (metamorphic pairs; the product rules REQUIRE f_i / DISALLOW evil would flip the verdict if they were evaluated on the uncounted link); 2 wrappers x 2 entry points; a third of the chains carry MATCH ... IN vendor rules on the first and last step that consume nothing (the agreed sets and the summary must not change); a fifth of the agreeing chains carry an inspection named like the first or the last step; every case verified 4 times (the reference link is picked from a map); the summary link is compared with (requested name, agreed materials of the first step, agreed products of the last step); ReduceStepsMetadata called directly with the difference at each of 3 positions x 6 repetitions. " +
 			"non-trivial = >=2 counted links or an uncounted link with other artifacts; distinct = the case tuple",
 		Assumptions: []string{"every validly signed authorized link counts, also beyond the threshold"},
 		Workers:     func(string) int { return 16 },
